@@ -247,7 +247,7 @@ def description_alphabet():
     base = [
         "plain text", "", " ", "  leading", "trailing  ", 'say "hi"', 'ends with quote"', '"', '""', '"""', '""""', "a\"\"\"b", "'", "'''", "\\", "\\\\", "back\\slash", "ends with backslash\\",
         "\\n literal", "real\nnewline", "\nleading newline", "trailing newline\n", "tab\there", "cr\rhere", "crlf\r\nhere", "{x}", "{0!r}", "%s", "é", "naïve café ☕", "\U0001f4a9",
-        "\\N{DASH}", "\\x41", "\\u1234", "#comment", "r\"raw\"", "\"\"\"\\", "\\\"", "a\\\"\"\"", "multi\nline\n  indented\n", "\x0c", "\x00nul",
+        "\\N{DASH}", "\\x41", "\\u1234", "#comment", "r\"raw\"", "\"\"\"\\", "\\\"", "a\\\"\"\"", "multi\nline\n  indented\n", "\x0c", "\x00nul", "hard break.  \nmore", "a | b \n", "p1\n \np2", "tab before newline\t\nx", "  \n  ",
     ]
     return base
 
